@@ -76,6 +76,37 @@ def mkseq(kind, ops):
     return " ".join(["seq", kind] + list(ops) + dump_suffix(kind, names_of(ops), nreg_of(ops)))
 
 
+class Batch:
+    """One long history on a process-global registry (kinds p, v): many short sub-histories with distinct name
+    prefixes, slot lookups placed relative to the number of keys accepted so far (tracked only to aim the lookups)."""
+
+    def __init__(self, kind):
+        self.kind, self.base = kind, KINDS[kind]["base"]
+        self.ops, self.seen, self.nseg = [], set(), 0
+
+    def accepts(self, name):
+        return name != "" if self.kind == "p" else valid_scheme(name)
+
+    def segment(self, templ):
+        """templ: ops over names a/A/b and relative slots S0/S1/S-1"""
+        tag = "h%d" % self.nseg
+        self.nseg += 1
+        cnt0 = len(self.seen)
+        for o in templ:
+            f = o.split(":")
+            if f[0] in ("r", "n") and f[1] in ("a", "A", "b", "B"):
+                nm = tag + f[1].lower()
+                f[1] = nm.upper() if f[1].isupper() else nm
+            if f[0] == "s" and f[1].startswith("S"):
+                f[1] = str(self.base + cnt0 + int(f[1][1:]))
+            if f[0] == "r" and self.accepts(f[1]):
+                self.seen.add(f[1].lower())
+            self.ops.append(":".join(f))
+
+    def line(self):
+        return mkseq(self.kind, self.ops)
+
+
 def gen_seq(ctx):
     rng, thorough = ctx.rng, ctx.tier == "thorough"
     lines, hist = [], {}
@@ -84,38 +115,66 @@ def gen_seq(ctx):
         lines.append(mkseq(kind, ops))
         hist[cls] = hist.get(cls, 0) + 1
 
-    # 1. exhaustive short histories over a case-variant alphabet
-    for kind in "tcpv":
-        base = KINDS[kind]["base"]
-        alpha = ["r:a:1", "r:A:1", "r:a:2", "r:b:1", "r:B:2", "n:a", "n:A", "n:b", "s:%d" % base, "s:%d" % (base + 1), "c"]
-        maxlen = 4 if (thorough and kind in "tc") else 3
+    # 1. exhaustive short histories over a case-variant alphabet (fresh table per history)
+    for kind in "tc":
+        alpha = ["r:a:1", "r:A:1", "r:a:2", "r:b:1", "r:B:2", "n:a", "n:A", "n:b", "s:0", "s:1", "c"]
+        maxlen = 4 if thorough else 3
         for n in range(0, maxlen + 1):
             for ops in itertools.product(alpha, repeat=n):
                 add(kind, ops, "exhaustive:" + kind)
-    ctx.extra["exhaustive_small_scope"] = ("all histories of length <= 3 (thorough: <= 4 for the test instantiations) over "
-                                           "{register a/A/b with payloads 1,2; lookup a,A,b; slot 0,1; count} for each of the 4 "
-                                           "registries, each followed by a full dump (count, every slot, every name)")
+    #    the real plugin / resource-provider registries are process-global: the same sub-histories, with distinct
+    #    name prefixes, are concatenated into long histories (one process each), so they also occur at every
+    #    alignment relative to the block boundaries
+    for kind in "pv":
+        alpha = ["r:a:1", "r:A:1", "r:a:2", "r:b:1", "r:B:2", "n:a", "n:A", "n:b", "s:S0", "s:S1", "c"]
+        segs = [t for n in range(1, 3) for t in itertools.product(alpha, repeat=n)]
+        l3 = list(itertools.product(alpha, repeat=3))
+        segs += l3 if thorough else rng.sample(l3, 260)
+        rng.shuffle(segs)
+        per = 36
+        for i in range(0, len(segs), per):
+            b = Batch(kind)
+            for t in segs[i:i + per]:
+                b.segment(list(t))
+                hist["exhaustive-segment:" + kind] = hist.get("exhaustive-segment:" + kind, 0) + 1
+            lines.append(b.line())
+    ctx.extra["exhaustive_small_scope"] = (
+        "test instantiations (exact / case-insensitive ObjectEqual): all histories of length <= 3 (thorough: <= 4) over "
+        "{register a/A/b with payloads 1,2; lookup a,A,b; slot 0,1; count} on a fresh table, each followed by a full dump "
+        "(count, every slot, every name); plugin and resource-provider APIs: all such histories of length <= 2 and %s of "
+        "length 3, as prefixed segments of long histories" % ("all" if thorough else "a seeded sample of 260"))
     # 2. block boundaries: prefix of distinct registrations, then every suffix of length <= 2
     for kind in "tcpv":
         base = KINDS[kind]["base"]
-        pres = (13, 14, 15, 16, 29, 30, 31) if thorough or kind == "t" else (14, 15, 16, 30)
+        if kind in "pv":
+            # process-global registries: a distinct-key prefix, then short prefixed sub-histories that walk across
+            # the boundary (one process per line)
+            short = ["r:a:1", "r:A:1", "r:a:2", "n:a", "n:A", "s:S0", "s:S-1", "s:S1", "c", "r:b:1"]
+            for pre in (13, 28, 43) if thorough else (13, 28):
+                for _rep in range(3 if thorough else 1):
+                    b = Batch(kind)
+                    b.segment(["r:k%d:1" % i for i in range(pre)])
+                    for _s in range(8):
+                        b.segment(rng.sample(short, 3))
+                    lines.append(b.line())
+                    hist["boundary:" + kind] = hist.get("boundary:" + kind, 0) + 1
+            continue
+        pres = (13, 14, 15, 16, 29, 30, 31, 45)
         for pre in pres:
             prefix = ["r:k%d:1" % i for i in range(pre)]
             alpha = ["r:new:1", "r:k0:1", "r:K0:1", "r:k0:2", "r:k%d:1" % (pre - 1), "r:K%d:2" % (pre - 1), "r:nw2:1",
                      "n:k%d" % (pre - 1), "n:NEW", "s:%d" % (base + pre - 1), "s:%d" % (base + pre), "s:%d" % (base + 14),
                      "s:%d" % (base + 15), "c"]
             sufs = [()] + [(a,) for a in alpha] + list(itertools.product(alpha, repeat=2))
-            if not thorough and kind != "t":
-                sufs = sufs[:15] + rng.sample(sufs[15:], 40)
             for suf in sufs:
                 add(kind, prefix + list(suf), "boundary:" + kind)
     # 3. random histories over larger name pools (several blocks)
-    nrand = 6000 if thorough else 500
+    nrand = 20000 if thorough else 1500
     for _ in range(nrand):
-        kind = rng.choice("ttccpv")
+        kind = rng.choice("tc") if rng.random() < 0.995 else rng.choice("pv")
         base = KINDS[kind]["base"]
         pool = ["k%d" % i for i in range(rng.choice((2, 4, 8, 17, 24, 40)))]
-        n = rng.choice((5, 12, 20, 35, 50, 70))
+        n = rng.choice((5, 12, 20, 35, 50, 70)) * (3 if kind in "pv" else 1)
         ops = []
         for _ in range(n):
             r = rng.random()
@@ -142,7 +201,7 @@ def gen_seq(ctx):
     return lines
 
 
-def gen_conc(ctx, n, kinds="tttccpv"):
+def gen_conc(ctx, n, kinds="ttttttttcccccccpv"):
     rng = ctx.rng
     lines = []
     for _ in range(n):
@@ -372,8 +431,18 @@ def run_translator(ctx):
 
 def run_seq(ctx, drv, impl, lines, label):
     rc, outs, err = ctx.run_lines([impl], lines)
-    bad = ctx.differential(label, [drv], [impl], lines,
-                           keyf=lambda l: l if sum(1 for t in l.split() if t.startswith("r:")) >= 2 else None)
+    # the implementation is run once (process-global registries need one slow fork per line): its recorded output is
+    # what ctx.differential compares with the model
+    os.makedirs(os.path.join(common.CACHE, "tmp"), exist_ok=True)
+    rec = os.path.join(common.CACHE, "tmp", "c40_impl_out_%d_%d.txt" % (ctx.seed, os.getpid()))
+    with open(rec, "w") as f:
+        f.write("".join(o + "\n" for o in outs))
+    try:
+        replay_cmd = ["sh", "-c", "cat >/dev/null; cat '%s'; exit %d" % (rec, rc)]
+        bad = ctx.differential(label, [drv], replay_cmd, lines,
+                               keyf=lambda l: l if sum(1 for t in l.split() if t.startswith("r:")) >= 2 else None)
+    finally:
+        os.unlink(rec)
     nfail = 0
     if rc == 0 and len(outs) == len(lines):
         for l, o in zip(lines, outs):
@@ -465,21 +534,32 @@ def run(ctx):
                 "followed by a full dump; concurrent scenarios = 2-4 writer threads registering overlapping / case-variant / "
                 "conflicting keys across the block boundary and 1-3 polling readers; a case is distinct by its full line; "
                 "non-trivial = at least two registrations")
+    import time
+    tm = {}
+    t0 = time.time()
     ctx.lean_props(THEOREMS)
+    tm["lean_props_s"] = round(time.time() - t0, 1)
     run_translator(ctx)
+    t0 = time.time()
     drv = ctx.driver("drv_c40")
     impl = ctx.harness("harness/cc/c40_table.cc", "c40_table")
+    tm["build_driver_harness_s"] = round(time.time() - t0, 1)
+    ctx.extra["stage_timing"] = tm
     if not (drv and impl):
         return
     ctx._c40 = (drv, impl)
     ctx.directed_search = directed_search
+    t0 = time.time()
     lines = gen_seq(ctx)
     outs, bad, nfail = run_seq(ctx, drv, impl, lines,
                                "GlobalTable<test type> / plugin API / resource-provider API vs Lean transition system (sequential)")
     ctx.extra["oracle_checked_sequential"] = len(lines)
+    tm["sequential_s"] = round(time.time() - t0, 1)
+    t0 = time.time()
     clines = gen_conc(ctx, 400 if thorough else 40)
     nfail_c, obs = run_conc(ctx, drv, impl, clines, "real threads vs model", repeat=3 if thorough else 2)
     ctx.extra["oracle_checked_concurrent_runs"] = len(obs)
+    tm["concurrent_s"] = round(time.time() - t0, 1)
     ctx.extra["oracle_failures"] = nfail + nfail_c
     if obs:
         polls = [int(x) for o in obs for x in re.findall(r"polls:(\d+)", o)]
